@@ -776,3 +776,269 @@ Proof.
   apply decode_by_layout_ok in P. destruct P as (_ & d & R & _).
   eapply read_layout_fixed; eauto.
 Qed.
+
+(* ------------------------------------------------------------------ *)
+(** * Theorem 2: skipping consumes exactly what reading consumes *)
+
+Definition skip_layout (dbg bigend : bool) (l : layout) (bs : list byte) : res (N * list byte) :=
+  match l with
+  | LBlock p => read_prefix dbg bigend p bs
+  | LCstring => let* (_, t) := read_cstr bs in Ok (0, t)
+  | LUleb | LSleb => let* (_, t) := skip_leb bs in Ok (0, t)
+  | _ => Err EUnknownForm
+  end.
+
+Lemma skip_var_known dbg e f bs : f <> F_indirect -> layout_fixed_size (form_layout f e) = None ->
+  skip_var dbg e (form_code f) bs = skip_layout dbg (be e) (form_layout f e) bs.
+Proof.
+  intros Hi Hv. destruct f; try congruence; try discriminate Hv; reflexivity.
+Qed.
+
+Lemma skip_n_0 bs : skip_n 0 bs = Ok bs.
+Proof. destruct bs; reflexivity. Qed.
+
+Lemma flush_is_skip_n sb bs : (if sb =? 0 then Ok bs else skip_n sb bs) = skip_n sb bs.
+Proof. destruct (N.eqb_spec sb 0) as [->|]; [rewrite skip_n_0|]; reflexivity. Qed.
+
+Lemma skip_n_compose sb r p n u p' :
+  skip_n sb r = Ok p -> p = u ++ p' -> N.of_nat (length u) = n ->
+  skip_n (sb + n) r = Ok p' /\ sb + n <= N.of_nat (length r).
+Proof.
+  intros H -> <-. apply skip_n_spec in H. destruct H as (h & -> & <-).
+  rewrite app_assoc. replace (N.of_nat (length h) + N.of_nat (length u)) with (N.of_nat (length (h ++ u)))
+    by (rewrite app_length; lia).
+  split; [apply skip_n_app|]. rewrite !app_length. lia.
+Qed.
+
+Lemma skip_leb_length bs r : skip_leb bs = Ok (tt, r) -> (length r <= length bs)%nat.
+Proof. intros H. apply skip_leb_shrinks in H. lia. Qed.
+
+Lemma read_prefix_length dbg bigend p bs len t :
+  read_prefix dbg bigend p bs = Ok (len, t) -> (length t <= length bs)%nat.
+Proof.
+  destruct p; cbn [read_prefix]; intros H.
+  - apply read_u8_spec in H. destruct H as (x & -> & _). cbn. lia.
+  - apply read_un_length in H. lia.
+  - apply read_un_length in H. lia.
+  - apply read_uleb128_skip, skip_leb_length in H. assumption.
+Qed.
+
+Lemma skip_layout_read dbg bigend l p d p' :
+  read_layout dbg bigend l p = Ok (d, p') -> layout_fixed_size l = None ->
+  exists sb' r', skip_layout dbg bigend l p = Ok (sb', r') /\ skip_n sb' r' = Ok p' /\
+                 (length r' <= length p)%nat.
+Proof.
+  destruct l as [m| | |pk| | |]; cbn [read_layout layout_fixed_size skip_layout]; intros H S; try discriminate.
+  - destruct (read_uleb128 dbg p) as [[v t]| | |] eqn:R; cbn [bind] in H; inversion H; subst.
+    apply read_uleb128_skip in R. rewrite R. cbn [bind]. exists 0, p'.
+    split; [reflexivity|]. split; [apply skip_n_0|]. eapply skip_leb_length; eauto.
+  - destruct (read_sleb128 dbg p) as [[v t]| | |] eqn:R; cbn [bind] in H; inversion H; subst.
+    apply read_sleb128_skip in R. rewrite R. cbn [bind]. exists 0, p'.
+    split; [reflexivity|]. split; [apply skip_n_0|]. eapply skip_leb_length; eauto.
+  - unfold read_block in H.
+    destruct (read_prefix dbg bigend pk p) as [[len t]| | |] eqn:R; cbn [bind] in H; try discriminate.
+    destruct (split_n len t) as [[b t']| | |] eqn:Sp; cbn [bind] in H; inversion H; subst.
+    exists len, t. split; [reflexivity|]. split.
+    + unfold skip_n. rewrite Sp. reflexivity.
+    + eapply read_prefix_length; eauto.
+  - destruct (read_cstr p) as [[s t]| | |] eqn:R; cbn [bind] in *; inversion H; subst.
+    exists 0, p'. split; [reflexivity|]. split; [apply skip_n_0|].
+    apply read_cstr_spec in R. destruct R as [-> _]. rewrite app_length. cbn. lia.
+Qed.
+
+Lemma skip_form_follows_read : forall fuel dbg e spec c p v p' sb r fuel2,
+  parse_form fuel dbg e spec c p = Ok (v, p') ->
+  skip_n sb r = Ok p -> N.of_nat (length r) < two64 -> (length r < fuel2)%nat ->
+  exists sb' r', skip_form fuel2 dbg e sb c r = Ok (sb', r') /\ skip_n sb' r' = Ok p' /\
+                 (length r' <= length r)%nat.
+Proof.
+  induction fuel as [|fuel IH]; intros dbg e spec c p v p' sb r fuel2 P K B F.
+  - (* no fuel: only a direct form can have succeeded *)
+    destruct (N.eq_dec c DW_FORM_indirect) as [->|Hc]; [discriminate P|].
+    rewrite parse_form_direct in P by assumption.
+    destruct fuel2 as [|k]; [lia|].
+    destruct (form_of_code c) as [f|] eqn:E; [|rewrite parse_direct_unknown in P by assumption; discriminate].
+    apply form_of_code_some in E. subst c.
+    assert (Hf : f <> F_indirect) by (intros ->; apply Hc; reflexivity).
+    rewrite parse_direct_known in P by assumption.
+    apply decode_by_layout_ok in P. destruct P as (_ & d & R & _).
+    cbn [skip_form]. rewrite get_attribute_size_known.
+    destruct (layout_fixed_size (form_layout f e)) as [n|] eqn:S.
+    + pose proof (read_layout_fixed _ _ _ _ _ _ _ R S) as L.
+      destruct (read_layout_suffix _ _ _ _ _ _ R) as [u ->].
+      destruct (skip_n_compose sb r (u ++ p') n u p' K eq_refl) as [K' Le].
+      { rewrite app_length in L. lia. }
+      destruct (N.ltb_spec (sb + n) two64); [|lia].
+      exists (sb + n), r. auto.
+    + rewrite flush_is_skip_n, K. cbn [bind].
+      destruct (N.eqb_spec (form_code f) DW_FORM_indirect) as [C|_]; [congruence|].
+      rewrite skip_var_known by assumption.
+      destruct (skip_layout_read _ _ _ _ _ _ R S) as (sb' & r' & A & A' & A'').
+      exists sb', r'. split; [assumption|]. split; [assumption|].
+      apply skip_n_spec in K. destruct K as (h & -> & _). rewrite app_length. lia.
+  - destruct (N.eq_dec c DW_FORM_indirect) as [->|Hc].
+    + rewrite parse_form_indirect in P.
+      destruct (read_uleb128_u16 p) as [[c' p1]| | |] eqn:R; cbn [bind] in P; try discriminate.
+      destruct fuel2 as [|k]; [lia|].
+      cbn [skip_form]. change (get_attribute_size DW_FORM_indirect e) with (@None N).
+      rewrite flush_is_skip_n, K. cbn [bind]. rewrite N.eqb_refl, R. cbn [bind].
+      pose proof (read_u16leb_shrinks _ _ _ R) as Sh.
+      assert (Lp : (length p <= length r)%nat).
+      { apply skip_n_spec in K. destruct K as (h & -> & _). rewrite app_length. lia. }
+      destruct (IH dbg e spec c' p1 v p' 0 p1 k P (skip_n_0 p1)) as (sb' & r' & A & A' & A''); [lia|lia|].
+      exists sb', r'. split; [assumption|]. split; [assumption|]. lia.
+    + rewrite parse_form_direct in P by assumption.
+      apply (IH dbg e spec c p v p' sb r fuel2); auto.
+      rewrite parse_form_direct by assumption. assumption.
+Qed.
+
+Lemma parse_attribute_length dbg e spec bs v r :
+  parse_attribute dbg e spec bs = Ok (v, r) -> (length r <= length bs)%nat.
+Proof.
+  unfold parse_attribute. generalize (S (length bs)) as fuel. generalize (at_form spec) as c.
+  intros c fuel. revert c bs.
+  induction fuel as [|fuel IH]; intros c bs P.
+  - destruct (N.eq_dec c DW_FORM_indirect) as [->|Hc]; [discriminate P|].
+    rewrite parse_form_direct in P by assumption.
+    destruct (form_of_code c) as [f|] eqn:E; [|rewrite parse_direct_unknown in P by assumption; discriminate].
+    apply form_of_code_some in E. subst c.
+    rewrite parse_direct_known in P by (intros ->; apply Hc; reflexivity).
+    apply decode_by_layout_ok in P. destruct P as (_ & d & R & _).
+    apply read_layout_suffix in R. destruct R as [u ->]. rewrite app_length. lia.
+  - destruct (N.eq_dec c DW_FORM_indirect) as [->|Hc].
+    + rewrite parse_form_indirect in P.
+      destruct (read_uleb128_u16 bs) as [[c' p1]| | |] eqn:R; cbn [bind] in P; try discriminate.
+      apply read_u16leb_shrinks in R. apply IH in P. lia.
+    + apply (IH c bs). rewrite parse_form_direct in * by assumption. assumption.
+Qed.
+
+Lemma skip_specs_follow_read : forall specs dbg e p vs pf sb r,
+  read_attributes dbg e specs p = Ok (vs, pf) ->
+  skip_n sb r = Ok p -> N.of_nat (length r) < two64 ->
+  exists sb' r', skip_specs dbg e sb specs r = Ok (sb', r') /\ skip_n sb' r' = Ok pf.
+Proof.
+  induction specs as [|s t IH]; intros dbg e p vs pf sb r R K B; cbn [read_attributes skip_specs] in *.
+  - inversion R; subst. eauto.
+  - destruct (parse_attribute dbg e s p) as [[v p1]| | |] eqn:P; cbn [bind] in R; try discriminate.
+    destruct (read_attributes dbg e t p1) as [[vs' pf']| | |] eqn:R'; cbn [bind] in R; inversion R; subst.
+    unfold parse_attribute in P.
+    destruct (skip_form_follows_read _ _ _ _ _ _ _ _ sb r (S (length r)) P K B) as (sb1 & r1 & A & A' & A''); [lia|].
+    rewrite A. cbn [bind]. eapply IH; eauto. lia.
+Qed.
+
+Lemma skip_eq_read dbg e specs bs vs r :
+  N.of_nat (length bs) < two64 ->
+  read_attributes dbg e specs bs = Ok (vs, r) ->
+  skip_attributes dbg e specs bs = Ok r.
+Proof.
+  intros B R. unfold skip_attributes.
+  destruct (skip_specs_follow_read specs dbg e bs vs r 0 bs R (skip_n_0 bs) B) as (sb & r' & A & A').
+  rewrite A. cbn [bind]. rewrite flush_is_skip_n. assumption.
+Qed.
+
+(* ------------------------------------------------------------------ *)
+(** * no_panic: neither reading nor skipping can panic or run out of fuel *)
+
+Lemma skip_leb_res : forall bs, skip_leb bs <> Panic /\ skip_leb bs <> OutOfFuel.
+Proof.
+  induction bs as [|b t IH]; cbn; [split; discriminate|].
+  destruct (has_cont (b2n b)); [assumption|split; discriminate].
+Qed.
+
+Lemma skip_n_res n bs : skip_n n bs <> Panic /\ skip_n n bs <> OutOfFuel.
+Proof.
+  unfold skip_n. destruct (split_n_res bs n) as [H1 H2].
+  destruct (split_n n bs) as [[? ?]| | |]; cbn [bind]; split; congruence.
+Qed.
+
+Lemma skip_var_res dbg e c bs : skip_var dbg e c bs <> Panic /\ skip_var dbg e c bs <> OutOfFuel.
+Proof.
+  unfold skip_var.
+  repeat match goal with |- context [if ?c then _ else _] => destruct c end;
+    rewrite ?(read_u8_un_be (be e)); unfold read_u16, read_u32;
+    try (split; discriminate);
+    try apply read_un_not_panic; try apply read_uleb128_res.
+  - res_step.
+  - destruct (skip_leb_res bs) as [H1 H2].
+    destruct (skip_leb bs) as [[? ?]| | |]; cbn [bind]; split; congruence.
+Qed.
+
+Lemma skip_form_res : forall fuel dbg e sb c r, (length r < fuel)%nat ->
+  skip_form fuel dbg e sb c r <> Panic /\ skip_form fuel dbg e sb c r <> OutOfFuel.
+Proof.
+  induction fuel as [|fuel IH]; intros dbg e sb c r L; [lia|].
+  cbn [skip_form].
+  destruct (get_attribute_size c e) as [len|].
+  - destruct (sb + len <? two64); split; discriminate.
+  - rewrite flush_is_skip_n.
+    destruct (skip_n_res sb r) as [H1 H2].
+    destruct (skip_n sb r) as [p| | |] eqn:K; cbn [bind]; try congruence; try (split; discriminate).
+    destruct (c =? DW_FORM_indirect); [|apply skip_var_res].
+    destruct (read_u16leb_res p) as [H3 H4].
+    destruct (read_uleb128_u16 p) as [[c' p1]| | |] eqn:R; cbn [bind]; try congruence; try (split; discriminate).
+    apply IH. apply read_u16leb_shrinks in R.
+    apply skip_n_spec in K. destruct K as (h & -> & _). rewrite app_length in L. lia.
+Qed.
+
+Lemma skip_specs_res : forall specs dbg e sb r,
+  skip_specs dbg e sb specs r <> Panic /\ skip_specs dbg e sb specs r <> OutOfFuel.
+Proof.
+  induction specs as [|s t IH]; intros dbg e sb r; cbn [skip_specs]; [split; discriminate|].
+  destruct (skip_form_res (S (length r)) dbg e sb (at_form s) r) as [H1 H2]; [lia|].
+  destruct (skip_form (S (length r)) dbg e sb (at_form s) r) as [[sb' r']| | |]; cbn [bind];
+    try congruence; try (split; discriminate). apply IH.
+Qed.
+
+Lemma skip_attributes_res dbg e specs bs :
+  skip_attributes dbg e specs bs <> Panic /\ skip_attributes dbg e specs bs <> OutOfFuel.
+Proof.
+  unfold skip_attributes. destruct (skip_specs_res specs dbg e 0 bs) as [H1 H2].
+  destruct (skip_specs dbg e 0 specs bs) as [[sb r]| | |]; cbn [bind]; try congruence; try (split; discriminate).
+  rewrite flush_is_skip_n. apply skip_n_res.
+Qed.
+
+Lemma read_attributes_res : forall specs dbg e bs,
+  read_attributes dbg e specs bs <> Panic /\ read_attributes dbg e specs bs <> OutOfFuel.
+Proof.
+  induction specs as [|s t IH]; intros dbg e bs; cbn [read_attributes]; [split; discriminate|].
+  destruct (parse_attribute_res dbg e s bs) as [H1 H2].
+  destruct (parse_attribute dbg e s bs) as [[v r]| | |]; cbn [bind]; try congruence; try (split; discriminate).
+  destruct (IH dbg e r) as [H3 H4].
+  destruct (read_attributes dbg e t r) as [[vs r']| | |]; cbn [bind]; try congruence; split; discriminate.
+Qed.
+
+(* the build mode is irrelevant *)
+Lemma parse_direct_dbg dbg e spec c bs : parse_direct dbg e spec c bs = parse_direct false e spec c bs.
+Proof.
+  unfold parse_direct. rewrite (read_uleb128_dbg dbg), (read_sleb128_dbg dbg). reflexivity.
+Qed.
+
+Lemma parse_form_dbg : forall fuel dbg e spec c bs,
+  parse_form fuel dbg e spec c bs = parse_form fuel false e spec c bs.
+Proof.
+  induction fuel as [|fuel IH]; intros; cbn [parse_form].
+  - destruct (c =? DW_FORM_indirect); [reflexivity|apply parse_direct_dbg].
+  - destruct (c =? DW_FORM_indirect); [|apply parse_direct_dbg].
+    destruct (read_uleb128_u16 bs) as [[c' r]| | |]; cbn [bind]; try reflexivity. apply IH.
+Qed.
+
+Lemma parse_attribute_dbg dbg e spec bs : parse_attribute dbg e spec bs = parse_attribute false e spec bs.
+Proof. apply parse_form_dbg. Qed.
+
+Lemma skip_form_dbg : forall fuel dbg e sb c r, skip_form fuel dbg e sb c r = skip_form fuel false e sb c r.
+Proof.
+  induction fuel as [|fuel IH]; intros; cbn [skip_form];
+    destruct (get_attribute_size c e); try reflexivity;
+    destruct (if sb =? 0 then Ok r else skip_n sb r); cbn [bind]; try reflexivity;
+    destruct (c =? DW_FORM_indirect);
+    try (unfold skip_var; rewrite (read_uleb128_dbg dbg); reflexivity); try reflexivity.
+  destruct (read_uleb128_u16 a) as [[c' r']| | |]; cbn [bind]; try reflexivity. apply IH.
+Qed.
+
+Lemma skip_attributes_dbg dbg e specs bs : skip_attributes dbg e specs bs = skip_attributes false e specs bs.
+Proof.
+  unfold skip_attributes. f_equal. generalize 0 as sb. revert bs.
+  induction specs as [|s t IH]; intros bs sb; cbn [skip_specs]; [reflexivity|].
+  rewrite skip_form_dbg. destruct (skip_form (S (length bs)) false e sb (at_form s) bs) as [[sb' r]| | |];
+    cbn [bind]; try reflexivity. apply IH.
+Qed.
